@@ -618,15 +618,14 @@ def search(ctx, seeds):
                 d = same_read(ref, got)
                 if d:
                     part = d.split(":")[0].split(" ")[0]
-                    add(f"{part} differ: {kind.split('_')[0]} read_evlrs={e} {'chunked' if c is not None else 'whole'} {f['cls']}"
-                        f"{' empty' if f['n'] == 0 else ''}{' +evlrs' if f['nev'] else ''}", inp, d)
+                    add(f"{part} differ from the path read: {'seekable' if sk else 'non-seekable'} source, {f['cls']} file", inp, d)
             if "log" in got and not sk:
                 bad = [t for t in got["log"] if t[0] in "st"] + [a for a in got["asked"] if a in ("seek", "tell")]
                 if bad:
                     add("non-seekable source asked to seek/tell", inp, f"calls {bad[:6]} in {got['log'][:12]}")
         d = same_read(ref, f["mmap"])
         if d:
-            add(f"mmap differs: {d.split(':')[0].split(' ')[0]} {f['cls']}{' empty' if f['n'] == 0 else ''}{' +evlrs' if f['nev'] else ''}",
+            add(f"{d.split(':')[0].split(' ')[0]} differ from the path read: mmap, {f['cls']} file",
                 {"file": f["label"], "class": f["cls"], "kind": "mmap", "file_hex": f["raw"].hex()}, d)
         elif "ok" in f["mmap"] and f["mmap"]["ok"]["count"] != f["n"]:
             add("mmap record count differs from the header's", {"file": f["label"], "kind": "mmap", "file_hex": f["raw"].hex()},
